@@ -94,9 +94,9 @@ fn redundancy(rep: &mut Report, rng: &mut Rng, k: u64) {
 }
 
 pub fn run(ctx: &Ctx, rep: &mut Report) {
-    let rounds = ctx.n(3, 80);
+    let rounds = ctx.n(10, 120);
     let n_cfg = 880 * rounds;
-    let n_red = ctx.n(300, 6000);
+    let n_red = ctx.n(900, 12_000);
     let n_fill = ctx.n(64, 1000);
     for k in ctx.cases(n_cfg + n_red + n_fill) {
         rep.cur_case = k;
